@@ -544,22 +544,22 @@ func (x *TopicsIndex) scanMessages(filter string, d int, n *particle, pks []pack
 	}
 
 	key, hasNext := isolateParticle(filter, d)
-	if key == "+" || key == "#" || d == -1 {
+	switch {
+	case key == "#":
+		if d > 0 {
+			pks = x.appendRetained(n, pks) // filter/# also matches filter as per 4.7.1.2
+		}
+		return x.gatherRetained(n, d == 0, pks)
+	case key == "+":
 		for _, adjacent := range n.particles.getAll() {
-			if d == 0 && adjacent.key == SysPrefix {
-				continue
+			if d == 0 && strings.HasPrefix(adjacent.key, "$") {
+				continue // don't match $ topics with top level wildcards [MQTT-4.7.2-1]
 			}
 
-			if !hasNext {
-				if adjacent.retainPath != "" {
-					if pk, ok := x.Retained.Get(adjacent.retainPath); ok {
-						pks = append(pks, pk)
-					}
-				}
-			}
-
-			if hasNext || (d >= 0 && key == "#") {
+			if hasNext {
 				pks = x.scanMessages(filter, d+1, adjacent, pks)
+			} else {
+				pks = x.appendRetained(adjacent, pks)
 			}
 		}
 		return pks
@@ -570,11 +570,36 @@ func (x *TopicsIndex) scanMessages(filter string, d int, n *particle, pks []pack
 			return x.scanMessages(filter, d+1, particle, pks)
 		}
 
-		if pk, ok := x.Retained.Get(particle.retainPath); ok {
+		pks = x.appendRetained(particle, pks)
+	}
+
+	return pks
+}
+
+// appendRetained appends the retained message stored at a particle, if there is one.
+func (x *TopicsIndex) appendRetained(n *particle, pks []packets.Packet) []packets.Packet {
+	n.Lock()
+	retainPath := n.retainPath
+	n.Unlock()
+	if retainPath != "" {
+		if pk, ok := x.Retained.Get(retainPath); ok {
 			pks = append(pks, pk)
 		}
 	}
+	return pks
+}
 
+// gatherRetained collects the retained messages of every particle below n. If top is true,
+// children whose key begins with $ are skipped [MQTT-4.7.2-1].
+func (x *TopicsIndex) gatherRetained(n *particle, top bool, pks []packets.Packet) []packets.Packet {
+	for _, adjacent := range n.particles.getAll() {
+		if top && strings.HasPrefix(adjacent.key, "$") {
+			continue
+		}
+
+		pks = x.appendRetained(adjacent, pks)
+		pks = x.gatherRetained(adjacent, false, pks)
+	}
 	return pks
 }
 
